@@ -137,6 +137,15 @@ func c09Cases(tier string, seed uint64) []fw.Case {
 			}
 		}
 	}
+	// senders registering while a cancelled tracer is being released by its last sender
+	for _, procs := range []int{2, 8} {
+		c := c09Case{Level: "drain", Senders: 2, Sends: 300, Procs: procs}
+		if tier == "thorough" {
+			c.Sends = 3000
+		}
+		c.Name = fmt.Sprintf("drain/p%d", procs)
+		cs = append(cs, fw.MkCase("drain", &c))
+	}
 	// engine level: grammar + same order on generated programs
 	progs := forcedPairs(rng)
 	nr := 30
@@ -632,6 +641,68 @@ collect:
 	}
 }
 
+// c09Drain: c.Sends rounds of: a tracer with one registered sender is cancelled (it now waits for its senders);
+// the sender finishes while other goroutines register and finish further senders at the same moment. Whatever
+// the tracer makes of the late comers (it may or may not wait for them), nothing may panic or block, and the
+// tracer terminates and closes the subscriber's channel once every sender that was accepted is done.
+func c09Drain(c *c09Case, env *fw.Env, v *fw.V) {
+	if c.Procs > 0 {
+		defer runtime.GOMAXPROCS(runtime.GOMAXPROCS(c.Procs))
+	}
+	perturb.Off()
+	for round := 0; round < c.Sends; round++ {
+		ctx, cancel := context.WithCancel(context.Background())
+		tr := tracing.NewTracer(ctx)
+		sub := tr.SubscribeChannel(make(chan tracing.ITrace, 4))
+		h := tr.RegisterSender()
+		cancel()
+		// let the tracer notice the cancellation and start waiting for its sender (a few scheduler rounds)
+		for i := 0; i < round%5; i++ {
+			runtime.Gosched()
+		}
+		var wg sync.WaitGroup
+		barrier := make(chan struct{})
+		for k := 0; k < c.Senders; k++ {
+			wg.Add(1)
+			go func() {
+				defer wg.Done()
+				<-barrier
+				for i := 0; i < 3; i++ {
+					tr.RegisterSender().Done()
+				}
+			}()
+		}
+		wg.Add(1)
+		go func() { defer wg.Done(); <-barrier; h.Done() }()
+		close(barrier)
+		done := make(chan struct{})
+		go func() { wg.Wait(); close(done) }()
+		select {
+		case <-done:
+		case <-time.After(step.Watchdog):
+			v.Violate("sender-blocked", "drain", "round %d: RegisterSender / Done did not return while the cancelled tracer was being released", round)
+			return
+		}
+		select {
+		case <-tr.Done():
+		case <-time.After(step.Watchdog):
+			v.Violate("tracer-not-terminated", "drain", "round %d: the cancelled tracer did not terminate although every sender is done", round)
+			return
+		}
+		select {
+		case _, ok := <-sub:
+			if ok {
+				v.Violate("unexpected-trace", "drain", "round %d: a trace arrived although nothing was sent", round)
+				return
+			}
+		case <-time.After(step.Watchdog):
+			v.Violate("channel-not-closed", "drain", "round %d: subscriber channel not closed after the tracer terminated", round)
+			return
+		}
+		v.Add("drain-rounds", 1)
+	}
+}
+
 func c09Engine(c *c09Case, env *fw.Env, v *fw.V) {
 	g := gen.Lower("p", c.AST)
 	sc := step.Case{G: g, Vars: c.Vars, Order: c.Order, Lenient: hasOr(g), Hooks: c.Hooks, DelaySite: c.DelaySite, DelayNth: c.DelayNth, DelayUs: 300}
@@ -666,6 +737,9 @@ func init() {
 			if cc.Level == "tracer" {
 				c09Tracer(&cc, env, v)
 				v.Nontrivial = cc.Senders > 1 || len(cc.Joiners) > 0
+			} else if cc.Level == "drain" {
+				c09Drain(&cc, env, v)
+				v.Nontrivial = true
 			} else if cc.Level == "generations" {
 				c09Generations(&cc, env, v)
 				v.Nontrivial = true
@@ -675,7 +749,7 @@ func init() {
 			}
 			return v
 		},
-		Rule:        "tracer level: PRNG histories with 1..8 senders x 200 uniquely numbered traces, a permanent reference subscriber, 0..2 permanent slow subscribers (buffer 0/1, paced readers; must see exactly the reference sequence), optional cancellation of the tracer's context at a PRNG point while the registered senders go on (everything they send must still be delivered, then the tracer terminates and closes every channel), plus 0..3 joiners that subscribe at a PRNG point, read a PRNG number of traces (pacing none/yield/50us, buffer 0/1/10/1000) and unsubscribe; crowded variants (4..6 joiners with buffers 0..2 coming and going within a few traces of each other next to 1..2 slow permanent subscribers); GOMAXPROCS 1/2/4/8; hooks in Send/broadcast/Subscribe/Unsubscribe; offline checks: reference sequence is a permutation respecting each sender's order, each joiner's reads and its buffer leftovers are contiguous blocks of the reference order in the right order, nothing sent after Subscribe returned is missed, nothing arrives after Unsubscribe returned, no deadlock at the quiescent point; generations: 1..4 groups of 1 / 3 senders come and go one after the other on one tracer (directly or through an inner tracer and a relay each; the sender count returns to zero in between), the context is cancelled before / in the middle of / after the last group's 5 traces and the group finishes: every trace delivered in sender order, then the tracer terminates and closes the channel; engine level: generated programs run stepwise with two subscribers (also with the goroutine making the n-th hit of flow.fork / flow.action / flow.loop / tracer.send / tracer.bcast paused 300 us, on the nesting pairs and on activities whose flow action takes several sequence flows with the first one not taken), causal grammar (flow trace before NewFlow of the flows it announces, visit before leave, termination last) and identical order for both subscribers; non-trivial = > 1 sender or >= 1 joiner (tracer) / any engine run; distinct = descriptor hash",
+		Rule:        "tracer level: PRNG histories with 1..8 senders x 200 uniquely numbered traces, a permanent reference subscriber, 0..2 permanent slow subscribers (buffer 0/1, paced readers; must see exactly the reference sequence), optional cancellation of the tracer's context at a PRNG point while the registered senders go on (everything they send must still be delivered, then the tracer terminates and closes every channel), plus 0..3 joiners that subscribe at a PRNG point, read a PRNG number of traces (pacing none/yield/50us, buffer 0/1/10/1000) and unsubscribe; crowded variants (4..6 joiners with buffers 0..2 coming and going within a few traces of each other next to 1..2 slow permanent subscribers); GOMAXPROCS 1/2/4/8; hooks in Send/broadcast/Subscribe/Unsubscribe; offline checks: reference sequence is a permutation respecting each sender's order, each joiner's reads and its buffer leftovers are contiguous blocks of the reference order in the right order, nothing sent after Subscribe returned is missed, nothing arrives after Unsubscribe returned, no deadlock at the quiescent point; generations: 1..4 groups of 1 / 3 senders come and go one after the other on one tracer (directly or through an inner tracer and a relay each; the sender count returns to zero in between), the context is cancelled before / in the middle of / after the last group's 5 traces and the group finishes: every trace delivered in sender order, then the tracer terminates and closes the channel; drain: 300 / 3000 rounds of a cancelled tracer whose last sender finishes while two goroutines register and finish further senders at the same moment (no panic, nothing blocked, the tracer terminates and closes the channel); engine level: generated programs run stepwise with two subscribers (also with the goroutine making the n-th hit of flow.fork / flow.action / flow.loop / tracer.send / tracer.bcast paused 300 us, on the nesting pairs and on activities whose flow action takes several sequence flows with the first one not taken), causal grammar (flow trace before NewFlow of the flows it announces, visit before leave, termination last) and identical order for both subscribers; non-trivial = > 1 sender or >= 1 joiner (tracer) / any engine run; distinct = descriptor hash",
 		Assumptions: []string{"subscribers honour the documented contract: they keep reading until they unsubscribe", "unsubscribing a channel twice is not exercised"},
 	})
 }
